@@ -184,13 +184,32 @@ pub fn run_hotchain(body: &[Sexp]) -> String {
   let subject: Subj = Subj::default();
   let obs = apply_uops(subject.clone().box_it(), body[1].args());
   let (probe, log) = Probe::new();
-  let _sub = obs.actual_subscribe(probe);
-  for c in calls {
+  let sub = obs.actual_subscribe(probe);
+  // optional (cut K u|ud): after K calls the subscription is unsubscribed / its guard dropped
+  let cut: Option<(usize, bool)> = body.get(2).map(|c| (c.args()[0].usize(), c.args()[1].atom() == "ud"));
+  let mut ender: Option<Box<dyn FnOnce()>> = Some(match cut {
+    Some((_, true)) => {
+      let g = sub.unsubscribe_when_dropped();
+      Box::new(move || drop(g))
+    }
+    _ => Box::new(move || sub.unsubscribe()),
+  });
+  for (i, c) in calls.into_iter().enumerate() {
+    if let Some((k, _)) = cut {
+      if i == k {
+        if let Some(f) = ender.take() {
+          f();
+        }
+      }
+    }
     match c {
       Ev::Next(v) => subject.clone().next(v),
       Ev::Err(e) => subject.clone().error(e),
       Ev::Done => subject.clone().complete(),
     }
+  }
+  if let Some(f) = ender.take() {
+    std::mem::forget(f);
   }
   crate::val::show_trace(&log.take())
 }
@@ -241,14 +260,28 @@ pub fn run_op2(body: &[Sexp]) -> String {
   let b: Obs = if inb.args()[0].atom() == "hot" { sb.clone().box_it() } else { cold(&inb.args()[1..]) };
   let obs = apply_op2(&body[0], a, b);
   let (probe, log) = Probe::new();
-  let _sub = obs.actual_subscribe(probe);
+  let sub = obs.actual_subscribe(probe);
+  let use_guard = body[3].args().iter().any(|st| st.head() == "ud");
+  let mut ender: Option<Box<dyn FnOnce()>> = Some(if use_guard {
+    let g = sub.unsubscribe_when_dropped();
+    Box::new(move || drop(g))
+  } else {
+    Box::new(move || sub.unsubscribe())
+  });
   for st in body[3].args() {
-    let e = Ev::parse(&st.args()[0]);
     match st.head() {
-      "a" => emit(&sa, e),
-      "b" => emit(&sb, e),
+      "a" => emit(&sa, Ev::parse(&st.args()[0])),
+      "b" => emit(&sb, Ev::parse(&st.args()[0])),
+      "u" | "ud" => {
+        if let Some(f) = ender.take() {
+          f();
+        }
+      }
       h => panic!("bad side {h}"),
     }
+  }
+  if let Some(f) = ender.take() {
+    std::mem::forget(f);
   }
   crate::val::show_trace(&log.take())
 }
